@@ -42,6 +42,14 @@ pub struct GoodCase {
     pub external: bool,
     /// give -a although the query is SE (a warning, not an error)
     pub useless_arg: bool,
+    /// number of additional isolated (unattacked, non-attacking) arguments: they belong to every extension of
+    /// every semantics, so the reference stays exact while labels get 2-3 digits and witnesses > 100 members.
+    /// Odd values put them before the core arguments (the core then has the large indices).
+    #[serde(default)]
+    pub pad: u8,
+    /// query a padding argument instead of a core argument
+    #[serde(default)]
+    pub query_pad: bool,
 }
 
 #[derive(Clone, Debug, Serialize, Deserialize)]
@@ -89,23 +97,35 @@ fn problem_string(q: Q, sem: Sem, case_mask: u16) -> String {
 struct Prepared {
     file_text: String,
     labels: Vec<String>,
+    pad_labels: Vec<String>,
 }
 
 fn prepare(c: &GoodCase) -> Prepared {
     let n = c.g.n;
+    let pad = c.pad as usize;
+    let pad_first = pad % 2 == 1;
     if c.apx {
         let labels: Vec<String> = (0..n).map(|i| apx_label(c.style, i)).collect();
+        let pad_labels: Vec<String> = (0..pad).map(|k| format!("pad_{}_", k)).collect();
         let order = order_from_keys(n, &c.order_keys);
-        let mut t = apx_text(&c.g, &labels, &order);
+        let core = apx_text(&c.g, &labels, &order);
+        let pads: String = pad_labels.iter().map(|l| format!("arg({}).\n", l)).collect();
+        // arguments must all be declared before the first attack
+        let split = core.find("att(").unwrap_or(core.len());
+        let mut t = if pad_first { format!("{}{}", pads, core) } else { format!("{}{}{}", &core[..split], pads, &core[split..]) };
         match c.decor % 4 {
             1 => t = t.replace('\n', "\r\n"),
             2 => t = t.replace("\n", "\n\n"),
             3 => t = t.replace("arg(", "  arg( ").replace(").", " ). "),
             _ => {}
         }
-        Prepared { file_text: t, labels }
+        Prepared { file_text: t, labels, pad_labels }
     } else {
-        let mut t = iccma_text(&c.g);
+        let shift = if pad_first { pad } else { 0 };
+        let mut t = format!("p af {}\n", n + pad);
+        for (a, b) in &c.g.att {
+            t.push_str(&format!("{} {}\n", *a as usize + 1 + shift, *b as usize + 1 + shift));
+        }
         match c.decor % 5 {
             1 => t = t.replace('\n', "\r\n"),
             2 => t = format!("# generated\n{}# end\n", t),
@@ -116,7 +136,9 @@ fn prepare(c: &GoodCase) -> Prepared {
             }
             _ => {}
         }
-        Prepared { file_text: t, labels: (1..=n).map(|i| i.to_string()).collect() }
+        let labels = (1..=n).map(|i| (i + shift).to_string()).collect();
+        let pad_labels = if pad_first { (1..=pad).map(|i| i.to_string()).collect() } else { (n + 1..=n + pad).map(|i| i.to_string()).collect() };
+        Prepared { file_text: t, labels, pad_labels }
     }
 }
 
@@ -163,8 +185,9 @@ fn base_args(c: &GoodCase, file: &str, arg_label: Option<String>, fake: &FakeSat
 }
 
 /// Parses the answer lines under the grammar of the format; Err = grammar violation.
-fn parse_answer(lines: &[String], apx: bool, q: Q, labels: &[String]) -> Result<Answer, String> {
+fn parse_answer(lines: &[String], apx: bool, q: Q, labels: &[String], pad_labels: &[String]) -> Result<Answer, String> {
     let parse_set = |l: &str| -> Result<u32, String> {
+        let mut pad_seen = vec![false; pad_labels.len()];
         let names: Vec<&str> = if apx {
             let inner = l.strip_prefix('[').and_then(|x| x.strip_suffix(']')).ok_or_else(|| format!("not a bracketed list: {:?}", l))?;
             if inner.is_empty() {
@@ -183,11 +206,22 @@ fn parse_answer(lines: &[String], apx: bool, q: Q, labels: &[String]) -> Result<
         };
         let mut m = 0u32;
         for nme in names {
-            let i = labels.iter().position(|x| x == nme).ok_or_else(|| format!("unknown label {:?} in {:?}", nme, l))?;
+            if let Some(k) = pad_labels.iter().position(|x| x == nme) {
+                if pad_seen[k] {
+                    return Err(format!("label {:?} twice in the set", nme));
+                }
+                pad_seen[k] = true;
+                continue;
+            }
+            let i = labels.iter().position(|x| x == nme).ok_or_else(|| format!("unknown label {:?} in the set {:?}", nme, l.chars().take(200).collect::<String>()))?;
             if m & (1 << i) != 0 {
-                return Err(format!("label {:?} twice in {:?}", nme, l));
+                return Err(format!("label {:?} twice in the set", nme));
             }
             m |= 1 << i;
+        }
+        if let Some(k) = pad_seen.iter().position(|b| !*b) {
+            // an isolated argument belongs to every extension of every semantics
+            return Err(format!("WRONG-SET: the isolated argument {:?} is missing from the printed set", pad_labels[k]));
         }
         Ok(m)
     };
@@ -226,7 +260,7 @@ impl Cli {
     }
 
     fn good(&self, c: &GoodCase, rec: &mut Rec) -> CheckResult {
-        if !Self::feasible(c) || (c.g.n == 0 && c.q != Q::SE) {
+        if !Self::feasible(c) || (c.g.n == 0 && c.pad == 0 && c.q != Q::SE) {
             return Ok(());
         }
         let (solve_bin, iccma_bin) = repobin::ensure().unwrap_or_else(|e| std::panic::panic_any(Inconclusive(e)));
@@ -238,7 +272,21 @@ impl Cli {
         let g = G::new(c.g.n, &c.g.att_usize());
         let fams = Fams::new(&g);
         let a = idx(c.arg, g.n.max(1));
-        let arg_label = if c.q != Q::SE || (c.useless_arg && g.n > 0) { Some(p.labels[a].clone()) } else { None };
+        let query_pad = c.query_pad && !p.pad_labels.is_empty() && c.q != Q::SE;
+        let arg_label = if query_pad {
+            Some(p.pad_labels[idx(c.arg, p.pad_labels.len())].clone())
+        } else if (c.q != Q::SE && g.n > 0) || (c.useless_arg && g.n > 0) {
+            Some(p.labels[a].clone())
+        } else if c.q != Q::SE {
+            // no core argument: query a padding argument if there is one
+            match p.pad_labels.first() {
+                Some(l) => Some(l.clone()),
+                None => return Ok(()),
+            }
+        } else {
+            None
+        };
+        let query_pad = query_pad || (c.q != Q::SE && g.n == 0);
         let args = base_args(c, &file.to_string_lossy(), arg_label, &fake);
         let bin = if c.tool == 0 { &solve_bin } else { &iccma_bin };
         rec.eval();
@@ -263,8 +311,37 @@ impl Cli {
             return Err(Failure::new(format!("{}/answer-not-newline-terminated", sig), ctx()));
         }
         let cert = c.tool == 1 || c.cert;
-        let ans = parse_answer(&lines, c.apx, c.q, &p.labels).map_err(|e| Failure::new(format!("{}/stdout-outside-answer-grammar", sig), format!("{} | {}", e, ctx())))?;
-        check_answer(&ans, &fams, c.q, c.sem, a, cert).map_err(|(what, msg)| Failure::new(format!("{}/wrong-answer/{}", sig, what), format!("{} | {}", msg, ctx())))?;
+        let ans = parse_answer(&lines, c.apx, c.q, &p.labels, &p.pad_labels).map_err(|e| {
+            if e.starts_with("WRONG-SET") {
+                Failure::new(format!("{}/wrong-answer/isolated-argument-missing-from-set", sig), format!("{} | {}", e, ctx()))
+            } else {
+                Failure::new(format!("{}/stdout-outside-answer-grammar", sig), format!("{} | {}", e, ctx()))
+            }
+        })?;
+        if query_pad {
+            // an isolated argument is in every extension: DC iff an extension exists, DS always
+            let exts = fams.exts(c.sem);
+            let expected = if c.q == Q::DC { !exts.is_empty() } else { true };
+            if ans.status != Some(expected) {
+                return Err(Failure::new(format!("{}/wrong-answer/isolated-argument-status", sig), ctx()));
+            }
+            let promised = cert && c.q == Q::DC && expected;
+            match (promised, ans.set) {
+                (false, None) => {}
+                (true, Some(m)) => {
+                    let fam = if c.sem == Sem::PR { fams.co.clone() } else { exts };
+                    if !fam.contains(&m) {
+                        return Err(Failure::new(format!("{}/wrong-answer/certificate-not-an-extension", sig), ctx()));
+                    }
+                }
+                _ => return Err(Failure::new(format!("{}/wrong-answer/certificate-presence", sig), ctx())),
+            }
+        } else {
+            check_answer(&ans, &fams, c.q, c.sem, a, cert).map_err(|(what, msg)| Failure::new(format!("{}/wrong-answer/{}", sig, what), format!("{} | {}", msg, ctx())))?;
+        }
+        if c.pad >= 10 {
+            rec.class("labels-with-2-or-3-digits");
+        }
         rec.class(&format!("tool-{}", tool));
         rec.class(if c.apx { "format-apx" } else { "format-iccma23" });
         if c.external && c.tool == 0 {
@@ -308,13 +385,32 @@ impl Cli {
             }
             2 => {
                 what = "ill-formed-file";
-                let t = if c.apx { BAD_APX[v % BAD_APX.len()] } else { BAD_ICCMA[v % BAD_ICCMA.len()] };
+                // a short ill-formed file, or the (possibly long) well-formed file of this case with one bad line at its very end
+                let late = v % 3 == 0;
+                let t: String = if late {
+                    let mut base = p.file_text.replace("\r\n", "\n");
+                    while base.ends_with("\n\n") {
+                        base.pop();
+                    }
+                    if !base.ends_with('\n') {
+                        base.push('\n');
+                    }
+                    if c.apx {
+                        format!("{}att({},undeclared_zz_).\n", base, p.labels.first().cloned().unwrap_or_else(|| "a".into()))
+                    } else {
+                        format!("{}{} 1\n", base, n + c.pad as usize + 1)
+                    }
+                } else if c.apx {
+                    BAD_APX[v % BAD_APX.len()].to_string()
+                } else {
+                    BAD_ICCMA[v % BAD_ICCMA.len()].to_string()
+                };
                 // only inputs the reference parser rejects
                 let r = if c.apx { ref_apx(t.as_bytes()) } else { ref_iccma(t.as_bytes()) };
                 if !matches!(r, RefOutcome::Reject(_)) {
                     return Ok(());
                 }
-                std::fs::write(&file, t).unwrap();
+                std::fs::write(&file, &t).unwrap();
             }
             3 => {
                 what = "unknown-problem";
@@ -358,7 +454,7 @@ impl Cli {
                 let bads: Vec<String> = if c.apx {
                     vec!["no_such_arg".into(), "1".into(), "A".into(), format!("{}x", p.labels[a])]
                 } else {
-                    vec!["0".into(), (n + 1).to_string(), "a".into(), "1.5".into(), "99999999999999999999".into()]
+                    vec!["0".into(), (n + c.pad as usize + 1).to_string(), "a".into(), "1.5".into(), "99999999999999999999".into()]
                 };
                 arg_label = Some(bads[v % bads.len()].clone());
             }
@@ -510,9 +606,9 @@ fn good_case(nmax: usize) -> BoxedStrategy<GoodCase> {
     (
         (gen::graph(nmax), any::<bool>(), 0u8..4, vec(any::<u8>(), nmax), 0u8..6),
         (0u8..3, 0usize..7, 0u8..3, any::<u16>(), any::<u16>(), any::<bool>()),
-        (0u8..4, 0u8..7, any::<bool>(), prop_oneof![9 => Just(false), 1 => Just(true)], prop_oneof![9 => Just(false), 1 => Just(true)]),
+        (0u8..4, 0u8..7, any::<bool>(), prop_oneof![9 => Just(false), 1 => Just(true)], prop_oneof![9 => Just(false), 1 => Just(true)], prop_oneof![3 => Just(0u8), 2 => 1u8..12, 2 => 12u8..130], prop_oneof![4 => Just(false), 1 => Just(true)]),
     )
-        .prop_map(|((g, apx, style, order_keys, decor), (tool, s, q, case_mask, arg, cert), (encoding, level, explicit_reader, external, useless_arg))| {
+        .prop_map(|((g, apx, style, order_keys, decor), (tool, s, q, case_mask, arg, cert), (encoding, level, explicit_reader, external, useless_arg, pad, query_pad))| {
             GoodCase {
                 g,
                 apx,
@@ -531,6 +627,8 @@ fn good_case(nmax: usize) -> BoxedStrategy<GoodCase> {
                 explicit_reader,
                 external,
                 useless_arg,
+                pad,
+                query_pad,
             }
         })
         .boxed()
@@ -542,7 +640,7 @@ impl Prop for Cli {
         "C05"
     }
     fn rule(&self) -> String {
-        "Instance files written by the harness in both formats (<=7 arguments, decorated with comment lines, CRLF, blank lines, tabs, missing final newline, spaces around identifiers) x the 21 problems in random letter case x an argument x {--reader/-r, --encoding, --with-certificate/-c, --logging-level in {off,error,warn,info,debug,trace}, --external-sat-solver fake_sat, a useless -a with SE} for `crustabri solve`, and -f/-p/-a for `crustabri_iccma23`. Oracle: exit status 0; stdout minus the logger's `![` lines is exactly the answer grammar of the format (nothing may be removed when logging is off), parsed and judged against the brute-force reference (status, witness validity, witness presence exactly when promised). Bad invocations (14 kinds: missing/unreadable file, directory, ill-formed file by the C13 reference, near-miss problem strings, DC/DS without -a, unknown / out-of-range -a, unknown flag, bad --encoding/--reader/--logging-level values, missing -p or -f, wrong reader for the file, non-existent external solver) must exit non-zero without any line of the answer grammar. `problems` / `--problems` must list exactly the 21 problems. Non-trivial: a DC/DS problem with certificate, or any bad invocation; distinct = (file, argv).".into()
+        "Instance files written by the harness in both formats (<=7 core arguments plus, in 57% of the cases, 1-129 isolated arguments placed before or after them - they belong to every extension, so the reference stays exact while labels get 2-3 digits and witnesses over 100 members; the queried argument may be one of them; decorated with comment lines, CRLF, blank lines, tabs, missing final newline, spaces around identifiers) x the 21 problems in random letter case x an argument x {--reader/-r, --encoding, --with-certificate/-c, --logging-level in {off,error,warn,info,debug,trace}, --external-sat-solver fake_sat, a useless -a with SE} for `crustabri solve`, and -f/-p/-a for `crustabri_iccma23`. Oracle: exit status 0; stdout minus the logger's `![` lines is exactly the answer grammar of the format (nothing may be removed when logging is off), parsed and judged against the brute-force reference (status, witness validity, witness presence exactly when promised). Bad invocations (14 kinds: missing/unreadable file, directory, ill-formed file by the C13 reference, near-miss problem strings, DC/DS without -a, unknown / out-of-range -a, unknown flag, bad --encoding/--reader/--logging-level values, missing -p or -f, wrong reader for the file, non-existent external solver) must exit non-zero without any line of the answer grammar. `problems` / `--problems` must list exactly the 21 problems. Non-trivial: a DC/DS problem with certificate, or any bad invocation; distinct = (file, argv).".into()
     }
     fn assumptions(&self) -> Vec<String> {
         vec!["oracle.rs; refparse.rs for the ill-formed files".into(), "the logger prefixes every log line with `![`".into()]
@@ -587,6 +685,8 @@ impl Prop for Cli {
                         explicit_reader: false,
                         external: false,
                         useless_arg: false,
+                        pad: 0,
+                        query_pad: false,
                     },
                     255,
                     0,
